@@ -1,4 +1,103 @@
-(* placeholder while the correspondence is brought up; replaced by the pinned statements *)
-From BSV Require Import Base.Hex Model.Sighash.
-Example C10_placeholder : SH_ALL = 1%N.
-Proof. reflexivity. Qed.
+(* Props/C10.v — pinned statements of property C10 (the legacy signature-hash preimage equals the original
+   Bitcoin algorithm).  Statements only; proofs are in Proofs/LegacyProofs.v.
+   `plain_bits sub` says that the subscript is a script value of the form Script::from_bytes produces
+   (C10_from_bytes_plain); `flatten sub` is its flat element sequence, which for a parsed byte string is what
+   the independent tokenizer reads from those bytes (C02_script_roundtrip). *)
+From BSV Require Import Base.Hex Prim.Sha256 Model.Opcodes Model.Script Model.VarInt Model.Tx Model.Sighash
+  Spec.ScriptTok Spec.SighashWire Spec.LegacySighash Proofs.ScriptProofs Proofs.SighashProofs Proofs.LegacyProofs.
+Local Open Scope list_scope.
+
+(* 0. the six legacy flags are {ALL,NONE,SINGLE} x {-,ANYONECANPAY} without the FORKID bit *)
+Theorem C10_legacy_variants_bits :
+  forallb (fun f => negb (forkid_bit f) && is_sighash f) legacy_flags = true
+  /\ map (fun f => (base_type f, anyonecanpay f)) legacy_flags
+     = [(1, false); (2, false); (3, false); (1, true); (2, true); (3, true)]%N.
+Proof. exact legacy_variants_bits. Qed.
+Print Assumptions C10_legacy_variants_bits.
+
+(* 1. For each legacy flag (and the two bare enum values FORKID / ANYONECANPAY, which take the same path),
+   every index and every subscript, the library's answer is determined by the reference algorithm: its
+   serialisation, or a refusal exactly where the reference algorithm reports its error value
+   (no input at the index; SINGLE without an output at the index). *)
+Theorem C10_legacy_total :
+  forall (H : bytes -> bytes) t i f sub v,
+    In f legacy_path_flags -> plain_bits sub = true ->
+    sighash_preimage H t i f sub v =
+      match legacy_preimage (view_tx t) i f (flatten sub) with Some p => Ok p | None => Err end.
+Proof. exact legacy_total. Qed.
+Print Assumptions C10_legacy_total.
+
+Theorem C10_legacy_eq_spec :
+  forall (H : bytes -> bytes) t i f sub v,
+    In f legacy_flags -> plain_bits sub = true -> i < length (inputs t) ->
+    (base_type f = BASE_SINGLE -> i < length (outputs t)) ->
+    exists p, legacy_preimage (view_tx t) i f (flatten sub) = Some p /\ sighash_preimage H t i f sub v = Ok p.
+Proof. exact legacy_eq_spec. Qed.
+Print Assumptions C10_legacy_eq_spec.
+
+(* 2. the permitted difference *)
+Theorem C10_legacy_single_oob_err :
+  forall (H : bytes -> bytes) t i f sub v,
+    In f legacy_flags -> plain_bits sub = true -> base_type f = BASE_SINGLE -> length (outputs t) <= i ->
+    sighash_preimage H t i f sub v = Err.
+Proof. exact legacy_single_oob_err. Qed.
+Print Assumptions C10_legacy_single_oob_err.
+
+Theorem C10_legacy_idx_oob_err :
+  forall (H : bytes -> bytes) t i f sub v,
+    In f legacy_flags -> plain_bits sub = true -> length (inputs t) <= i -> sighash_preimage H t i f sub v = Err.
+Proof. exact legacy_idx_oob_err. Qed.
+Print Assumptions C10_legacy_idx_oob_err.
+
+(* 3. code separators: none remains at any depth (no side condition); for scripts of the parser's form the
+   flat element sequence of the result is the original one with exactly the separators filtered out (so
+   everything else is preserved, in order, inside conditionals too), and its bytes are the reference
+   SerializeScriptCode of the original *)
+Theorem C10_codesep_removed :
+  forall s,
+    no_separator_bits (remove_codeseparators s) = true /\
+    (plain_bits s = true ->
+       flatten (remove_codeseparators s) = erase_separators (flatten s) /\
+       to_bytes (remove_codeseparators s) = toks_bytes (erase_separators (flatten s))).
+Proof. exact codesep_removed. Qed.
+Print Assumptions C10_codesep_removed.
+
+Theorem C10_from_bytes_plain :
+  forall bs s, from_bytes bs = Ok s -> plain_bits s = true.
+Proof. exact from_bytes_plain. Qed.
+Print Assumptions C10_from_bytes_plain.
+
+(* the serialiser of the library and the wire-level serialiser of the specification agree *)
+Theorem C10_tx_bytes_view :
+  forall t, tx_bytes t = ser_tx (view_tx t).
+Proof. exact tx_view. Qed.
+Print Assumptions C10_tx_bytes_view.
+
+(* non-vacuity and known answers: the specification reproduces the published NONE vector of tests/sighash.rs
+   (input 0, subscript OP_0 OP_RETURN); the model agrees; SINGLE at index 1 blanks output 0 and keeps output 1;
+   separators nested in IF / ELSE are removed. *)
+Definition kat_tx : string := "01000000029e8d016a7b0dc49a325922d05da1f916d1e4d4f0cb840c9727f3d22ce8d1363f000000008c493046022100e9318720bee5425378b4763b0427158b1051eec8b08442ce3fbfbf7b30202a44022100d4172239ebd701dae2fbaaccd9f038e7ca166707333427e3fb2a2865b19a7f27014104510c67f46d2cbb29476d1f0b794be4cb549ea59ab9cc1e731969a7bf5be95f7ad5e7f904e5ccf50a9dc1714df00fbeb794aa27aaff33260c1032d931a75c56f2ffffffffa3195e7a1ab665473ff717814f6881485dc8759bebe97e31c301ffe7933a656f020000008b48304502201c282f35f3e02a1f32d2089265ad4b561f07ea3c288169dedcf2f785e6065efa022100e8db18aadacb382eed13ee04708f00ba0a9c40e3b21cf91da8859d0f7d99e0c50141042b409e1ebbb43875be5edde9c452c82c01e3903d38fa4fd89f3887a52cb8aea9dc8aec7e2c9d5b3609c03eb16259a2537135a1bf0f9c5fbbcbdbaf83ba402442ffffffff02206b1000000000001976a91420bb5c3bfaef0231dc05190e7f1c8e22e098991e88acf0ca0100000000001976a9149e3e2d23973a04ec1b02be97c30ab9f2f27c3b2c88ac00000000".
+Definition kat_none : string := "01000000029e8d016a7b0dc49a325922d05da1f916d1e4d4f0cb840c9727f3d22ce8d1363f0000000002006affffffffa3195e7a1ab665473ff717814f6881485dc8759bebe97e31c301ffe7933a656f020000000000000000000000000002000000".
+
+Example C10_known_answer :
+  match bytes_of_hex kat_tx with
+  | Some b =>
+      match tx_from_bytes b with
+      | Ok t =>
+          option_map hex_of_bytes (legacy_preimage (view_tx t) 0 SH_NONE [TOp 0; TOp 106]) = Some kat_none
+          /\ omap hex_of_bytes (sighash_preimage (fun x => x) t 0 SH_NONE [BOp 0; BOp 106] 0) = Ok kat_none
+          /\ (exists p, legacy_preimage (view_tx t) 1 SH_SINGLE [TOp 171; TOp 172] = Some p
+                        /\ hex_of_bytes (firstn 12 (skipn (length p - 4 - 4 - 34 - 9 - 1) p)) = "02ffffffffffffffff00f0ca")
+          /\ sighash_preimage (fun x => x) t 2 SH_SINGLE [BOp 172] 0 = Err
+      | _ => False
+      end
+  | None => False
+  end.
+Proof. vm_compute. repeat split. eexists; split; reflexivity. Qed.
+
+Example C10_nested_separators :
+  omap (fun s => hex_of_bytes (to_bytes (remove_codeseparators s)))
+       (from_bytes [xab; x63; xab; x51; x67; x63; xab; x68; xab; x68; xab])
+  = Ok "635167636868"
+  /\ omap plain_bits (from_bytes [xab; x63; xab; x51; x67; x63; xab; x68; xab; x68; xab]) = Ok true.
+Proof. split; vm_compute; reflexivity. Qed.
